@@ -151,6 +151,7 @@ func Load(repo string) (*Prog, error) {
 			}
 		}
 	}
+	P.aliasRenamed()
 	sort.Slice(P.Funcs, func(i, j int) bool { return fnName(P.Funcs[i]) < fnName(P.Funcs[j]) })
 	for _, fn := range P.Funcs {
 		P.byName[fnName(fn)] = fn
@@ -208,6 +209,9 @@ func fnName(fn *ssa.Function) string {
 	}
 	if fn.Origin() != nil {
 		fn = fn.Origin()
+	}
+	if old, ok := renamedFuncs[fn]; ok {
+		return old
 	}
 	if p := fn.Parent(); p != nil {
 		// closure: name is parent$N
@@ -283,4 +287,80 @@ func (P *Prog) infoFor(fn *ssa.Function) *types.Info {
 		return p.TypesInfo
 	}
 	return nil
+}
+
+// renamedFuncs maps a declared function of the current tree to the name it had when the
+// rules and tables were confirmed (names_frozen.go), so that a plain rename keeps every
+// anchor, table line and obligation key. See aliasRenamed.
+var renamedFuncs = map[*ssa.Function]string{}
+
+// sigString is the fingerprint used to recognise a renamed function: package, receiver and
+// signature, with full package paths.
+func sigString(fn *ssa.Function) string {
+	q := func(p *types.Package) string { return p.Path() }
+	recv := ""
+	if r := fn.Signature.Recv(); r != nil {
+		recv = types.TypeString(r.Type(), q)
+	}
+	pkg := ""
+	if fn.Pkg != nil {
+		pkg = fn.Pkg.Pkg.Path()
+	}
+	tuple := func(t *types.Tuple) string {
+		var parts []string
+		for i := 0; i < t.Len(); i++ {
+			parts = append(parts, types.TypeString(t.At(i).Type(), q))
+		}
+		return "(" + strings.Join(parts, ", ") + ")"
+	}
+	variadic := ""
+	if fn.Signature.Variadic() {
+		variadic = " variadic"
+	}
+	return fmt.Sprintf("%s | %s | %dT %s %s%s", pkg, recv, fn.Signature.TypeParams().Len(), tuple(fn.Signature.Params()), tuple(fn.Signature.Results()), variadic)
+}
+
+// aliasRenamed: a frozen name that no longer exists is matched with the one declared
+// function that is new (not in the frozen list), lives in the same package and has the same
+// receiver and signature. Exactly one candidate is required; otherwise the name stays
+// missing and rules anchored on it report the lost anchor.
+func (P *Prog) aliasRenamed() {
+	if len(frozenFuncs) == 0 {
+		return
+	}
+	current := map[string]*ssa.Function{}
+	for _, fn := range P.Funcs {
+		if fn.Parent() == nil && fn.Synthetic == "" {
+			current[fnName(fn)] = fn
+		}
+	}
+	var missing []string
+	for name := range frozenFuncs {
+		if current[name] == nil {
+			missing = append(missing, name)
+		}
+	}
+	sort.Strings(missing)
+	for _, name := range missing {
+		var cands []*ssa.Function
+		for cur, fn := range current {
+			if _, known := frozenFuncs[cur]; known {
+				continue
+			}
+			if sigString(fn) == frozenFuncs[name] {
+				cands = append(cands, fn)
+			}
+		}
+		// a second missing name with the same fingerprint makes the match ambiguous
+		same := 0
+		for _, other := range missing {
+			if frozenFuncs[other] == frozenFuncs[name] {
+				same++
+			}
+		}
+		if len(cands) == 1 && same == 1 {
+			P.Assumptions = append(P.Assumptions, fmt.Sprintf("%s is treated as the renamed %s (same package, receiver and signature; the old name is gone and this is the only new function that fits)", cands[0].String(), name))
+			renamedFuncs[cands[0]] = name
+		}
+	}
 }
